@@ -7,7 +7,7 @@ from pbt import sut
 from pbt.sut import call_sut, BudgetExceeded, PropertyFailure
 
 ID = "C14"
-RULE = ("0..80 identified boxes: 70% on an integer lattice (radius 2..30) with width/height from {0, 0, 1, 2, 5, "
+RULE = ("0..80 identified boxes (up to 300 in the geometrically nested layouts that make the tree dozens of levels deep): 70% on an integer lattice (radius 2..30) with width/height from {0, 0, 1, 2, 5, "
         "full} so that zero-extent boxes and boxes on the mean-centre split lines are common; structured layouts "
         "(evenly spaced hatch lines, plus signs of crossing strokes, edge-sharing tile grids, nested boxes, "
         "mirror-symmetric sets, duplicates under different ids); 30% continuous floats. 8 queries per index: points, "
@@ -19,13 +19,13 @@ RULE = ("0..80 identified boxes: 70% on an integer lattice (radius 2..30) with w
         "(boxes, query).")
 ASSUMPTIONS = [
     "boxes and queries are finite with min <= max on both axes; ids are distinct hashable values",
-    "termination is observed up to 80 boxes under a line budget of 100x the largest construction seen on the "
+    "termination is observed up to 80 boxes (300 for geometric nesting) under a line budget of 100x the largest construction seen on the "
     "unchanged tree",
 ]
 REQUIRED_CLASSES = ["nontrivial", "degenerate_box", "box_on_split_line", "touching_only_hit", "empty_index",
                     "single_box", "tree_split", "hatch", "plus", "tiles", "nested", "mirror", "dups", "continuous",
                     "point_query", "segment_query", "enclosing_query", "disjoint_query", "outer_edge_query",
-                    "empty_expected"]
+                    "empty_expected", "geometric", "deep_tree(>32)"]
 QUICK_SHARDS = 4
 LINE_BUDGET = 3_000_000
 
@@ -85,6 +85,8 @@ def body(ctx, case):
         nodes, depth = tree_stats(index)
         if nodes > 1:
             classes.add("tree_split")
+        if depth > 32:
+            classes.add("deep_tree(>32)")
         ctx.notes["max_nodes"] = max(ctx.notes.get("max_nodes", 0), nodes)
     except Exception:  # pylint: disable=broad-except
         pass                                     # internal layout is not part of the property
@@ -136,7 +138,7 @@ def lattice_box(draw, radius):
 @st.composite
 def layouts(draw):
     kind = draw(st.sampled_from(["lattice", "lattice", "lattice", "hatch", "plus", "tiles", "nested", "mirror",
-                                 "dups", "continuous", "continuous", "continuous", "tiny"]))
+                                 "dups", "continuous", "continuous", "continuous", "tiny", "geometric"]))
     tags = {kind}
     boxes = []
     if kind == "tiny":
@@ -188,6 +190,20 @@ def layouts(draw):
             if draw(st.booleans()):
                 boxes.append([b[0], -b[3], b[2], -b[1]])
                 boxes.append([-b[2], -b[3], -b[0], -b[1]])
+    elif kind == "geometric":
+        # boxes shrinking geometrically towards a corner or a centre: each split peels off only the largest few,
+        # so the tree gets deep (dozens of levels) although the collection is modest
+        n = draw(st.sampled_from([40, 100, 200, 300, 300]))
+        ratio = draw(st.sampled_from([0.5, 0.5, 0.6, 0.75]))
+        anchor = draw(st.sampled_from(["diagonal", "diagonal", "staircase"]))
+        size = 1024.0
+        for k in range(n):
+            nxt = size * ratio
+            if anchor == "diagonal":
+                boxes.append([nxt, nxt, size, size])          # a spiral drawn towards the origin
+            else:
+                boxes.append([nxt, 0.0, size, nxt])           # steps of a staircase along the x axis
+            size = nxt
     elif kind == "dups":
         radius = draw(st.sampled_from([2, 5]))
         base = [draw(lattice_box(radius)) for _ in range(draw(st.integers(1, 6)))]
@@ -206,7 +222,7 @@ def layouts(draw):
             elif shape == 1:
                 yb = ya
             boxes.append([xa, ya, xb, yb])
-    boxes = boxes[:80]
+    boxes = boxes[:80] if kind != "geometric" else boxes
     order = draw(st.permutations(range(len(boxes)))) if len(boxes) <= 12 and draw(st.booleans()) else \
         list(range(len(boxes)))
     boxes = [boxes[k] for k in order]
@@ -224,7 +240,7 @@ def layouts(draw):
         ex = [min(b[0] for b in boxes), min(b[1] for b in boxes), max(b[2] for b in boxes), max(b[3] for b in boxes)]
     else:
         ex = [0, 0, 0, 0]
-    unit = 1 if kind not in ("continuous",) else (abs(ex[2] - ex[0]) + abs(ex[3] - ex[1]) or 1.0) / 8
+    unit = 1 if kind not in ("continuous", "geometric") else (abs(ex[2] - ex[0]) + abs(ex[3] - ex[1]) or 1.0) / 8
     nq = 8
     for _ in range(nq):
         qk = draw(st.sampled_from(["touch_side", "touch_corner", "edge_segment", "same", "inside_point", "outer_edge",
@@ -264,7 +280,7 @@ def layouts(draw):
             q = [ex[2] + unit, ex[3] + unit, ex[2] + 3 * unit, ex[3] + 3 * unit]
             tagged.add("disjoint_query")
         elif qk == "point":
-            if kind == "continuous":
+            if kind in ("continuous", "geometric"):
                 px = ex[0] + (ex[2] - ex[0]) * draw(st.integers(0, 8)) / 8
                 py = ex[1] + (ex[3] - ex[1]) * draw(st.integers(0, 8)) / 8
             else:
@@ -272,7 +288,7 @@ def layouts(draw):
                 py = draw(st.integers(int(ex[1]) - 1, int(ex[3]) + 1))
             q = [px, py, px, py]
         else:
-            if kind == "continuous":
+            if kind in ("continuous", "geometric"):
                 fr = st.integers(-2, 10)
                 xs = sorted([ex[0] + (ex[2] - ex[0]) * draw(fr) / 8, ex[0] + (ex[2] - ex[0]) * draw(fr) / 8])
                 ys = sorted([ex[1] + (ex[3] - ex[1]) * draw(fr) / 8, ex[1] + (ex[3] - ex[1]) * draw(fr) / 8])
